@@ -27,4 +27,5 @@ def obligations(ctx):
         sl = [s for i, s in enumerate(sl) if i % 2 == 0 or s.nulls or s.symstr]
     obls = C01.shape_obligations(ctx, "C02", "PROP_C02", sl)
     obls += C08.bundle_obligations(ctx, "C02", "PROP_C02", ctx.tier)
+    obls += C08.bundle_cap_obligations(ctx, "C02", "PROP_C02", ctx.tier)
     return obls
